@@ -37,10 +37,20 @@ for f in sorted(glob.glob('seeded/*/meta.json')):
     wt = f'/tmp/seedwt-{sid}'
     subprocess.run(['git', '-C', '/repo', 'worktree', 'add', '-q', '--detach', wt], check=True)
     try:
-        subprocess.run(['git', '-C', wt, 'apply', patch], check=True)
+        ap = subprocess.run(['git', '-C', wt, 'apply', patch], capture_output=True, text=True)
+        if ap.returncode != 0:
+            # the tree has moved on (a later `fix:` commit rewrote the lines the seed changes): keep what was recorded when it applied
+            subprocess.run(['git', '-C', '/repo', 'worktree', 'remove', '--force', wt], check=True)
+            dd = m.get('deductive') or {'definitely_failing_obligations': [], 'undischarged_obligations': [], 'n_sat': 0, 'n_unknown': 0, 'functions_outside_the_subset_after_the_change': []}
+            m['patch_applies_to_current_tree'] = False
+            json.dump(m, open(f, 'w'), indent=1, default=repr)
+            rows.append(row(m, dd['definitely_failing_obligations'], dd['undischarged_obligations'], dd['n_sat'], dd['n_unknown'], {'undecided_functions': dd['functions_outside_the_subset_after_the_change']}))
+            print(sid, 'patch no longer applies (recorded result kept)', flush=True)
+            continue
         r = subprocess.run(['./check', prop, '--no-bounded', '--summary', f'/tmp/seedsum-{sid}.json'], capture_output=True, text=True, timeout=3000, env=dict(os.environ, VERIF_REPO=wt))
     finally:
-        subprocess.run(['git', '-C', '/repo', 'worktree', 'remove', '--force', wt], check=True)
+        if os.path.isdir(wt):
+            subprocess.run(['git', '-C', '/repo', 'worktree', 'remove', '--force', wt], check=True)
     s = json.load(open(f'/tmp/seedsum-{sid}.json')) if os.path.exists(f'/tmp/seedsum-{sid}.json') else {'not_discharged': [], 'undecided_functions': [], 'crashes': ['no summary']}
     base = baseline(prop)
     sat = [o['name'] for o in s['not_discharged'] if o['status'] == 'sat' and o['name'] not in base]
